@@ -74,6 +74,14 @@ def gen_general(rng, nq=(6, 12), mix=None, ref_family=None, lattice_cfg=False, p
         mix = [(f, w) for f, w in mix if f != "planted"] + [("symmetric-chimera", 3)]
     n = rng.randint(*nq)
     queries, truths = W.make_queries(rng, refs, n, mix, lattice=W.LATTICE if fam == "lattice" else None)
+    if rng.random() < 0.3 and queries:
+        # query and reference CMAPs have independent id spaces: let one query share its id with a reference
+        rid = rng.choice(refs)["id"]
+        if all(q["id"] != rid for q in queries):
+            victim = rng.choice(queries)
+            truths[str(rid)] = truths.pop(str(victim["id"]), None)
+            victim["id"] = rid
+            queries.sort(key=lambda q: q["id"])
     cfg = W.swarm_config(rng, lattice=(fam == "lattice" and lattice_cfg), aggressive=aggressive)
     if fam == "lattice" and rng.random() < 0.6:
         cfg["-d"] = 600
@@ -562,6 +570,8 @@ class C07(Base):
                                       "r_layout": W.layout(rng, len(refs)), "q_layout": W.layout(rng, len(queries))}},
                 "config": cfg, "truth": truths, "meta": {"ref_family": fam}}
         ex = gen_exec(rng, readback=True)
+        # the -o path is user input too: no extension, a dot only in a directory name, a sub-directory, a ./ prefix
+        ex["out_name"] = rng.choice(["out.xmap"] * 5 + ["out", "res.v2/out", "sub/out.xmap", "./out.xmap", "out.v1.xmap"])
         case["executions"] = [ex]
         return case
 
@@ -899,8 +909,10 @@ class C10(Base):
         base = case["filesets"]["base"]
         mode = rng.choice(W.MODES)
         exs = [dict(gen_exec(rng, mode=mode, stream_p=0.0), variant="base")]
-        kinds = rng.sample(["subset", "superset", "permute-q", "shuffle-rows", "permute-r", "qid", "rid"],
+        kinds = rng.sample(["subset", "superset", "permute-q", "shuffle-rows", "permute-r", "qid", "rid", "self-file"],
                            3 if tier == "quick" else 4)
+        if "self-file" in kinds and {q["id"] for q in base["queries"]} & {r["id"] for r in base["refs"]}:
+            kinds.remove("self-file")          # one file for both roles needs disjoint ids
         qids = [q["id"] for q in base["queries"]]
         rids = [r["id"] for r in base["refs"]]
         for kind in kinds:
@@ -936,6 +948,13 @@ class C10(Base):
                 rng.shuffle(order)
                 fs["r_layout"] = dict(base["r_layout"], order=order)
                 ex["common"] = qids
+            elif kind == "self-file":
+                # references and queries in ONE file given as both -r and -q, separated only by -rId / -qId
+                base["combined"] = True
+                base["c_layout"] = W.layout(rng, len(qids) + len(rids))
+                ex.update(fileset="base", self_file=True, qids=list(qids), rids=list(rids), common=qids)
+                exs.append(ex)
+                continue
             elif kind == "qid":
                 keep = sorted(rng.sample(qids, rng.randint(1, len(qids))))
                 ex["qids"] = keep                       # -qId on the full file ...
@@ -1147,99 +1166,154 @@ class C11(Base):
 
 
 # ----------------------------------------------------------------------------------------------------------
+def _c17_molecules(rng, ids):
+    maps = []
+    for mid in ids:
+        nl = rng.choice([0, 0, 1, 2, 3, rng.randint(4, 60)])
+        p = rng.choice([0.0, 0.0, rng.uniform(0, 5000)])          # a first label exactly at 0.0 is common in real data
+        pos = []
+        for _ in range(nl):
+            pos.append(W.r1(p))
+            p += rng.choice([0.0, 0.1, rng.uniform(0.1, 30000)])
+        length = W.r1((pos[-1] if pos else 0) + rng.choice([0.0, 1.0, rng.uniform(0, 10000), rng.uniform(1000, 60000)]))
+        maps.append({"id": mid, "length": length, "pos": pos})
+    return maps
+
+
+def _c17_filter(rng, present):
+    filt = rng.choice([None, None, "present", "absent", "mixed"])
+    if filt == "present":
+        return rng.sample(present, rng.randint(1, len(present)))
+    if filt == "absent":
+        return [max(present) + 1 + i for i in range(rng.randint(1, 3))]
+    if filt == "mixed":
+        return rng.sample(present, rng.randint(1, len(present))) + [max(present) + 7]
+    return None
+
+
+def c17_body(case):
+    """Runs in an isolated child: the real CmapReader driven through simulated streams, against the model parser."""
+    from src.correlation.optical_map import OpticalMap
+    from src.parsers.cmap_reader import CmapReader
+    rep = Report()
+    stats = {"reads": 0, "short_reads": 0, "profiles": {}}
+    results = []
+
+    def expected(text, filt):
+        model = fmt.parse_cmap(text)
+        out = []
+        for mid in sorted(model):
+            m = model[mid]
+            if m["pos"] and not (filt and mid not in filt):
+                out.append((mid, int(m["length"]), m["pos"]))
+        return out
+
+    def read(reader, api, text, name, profile, seed, seekable, filt, vi, what):
+        stream = streams.SimTextReader(text, name, profile, seed, seekable)
+        stats["reads"] += 1
+        stats["profiles"][profile] = stats["profiles"].get(profile, 0) + 1
+        expect = expected(text, filt)
+        rep.clauses[what] += 1
+        try:
+            got = getattr(reader, api)(stream, filt)
+            got = [(int(m.moleculeId), m.length, [float(p) for p in m.positions]) for m in got]
+        except BaseException as e:  # noqa: BLE001
+            rep.add([O.V("reader-raises", f"CmapReader.{api} raised {type(e).__name__}: {str(e)[:120]} ({what}, profile "
+                                          f"{profile}, seekable {seekable}, {len(expect)} molecules expected)",
+                         f"raises|{type(e).__name__}|{'empty' if not expect else 'nonempty'}")], vi)
+            return None
+        stats["short_reads"] += stream.short_reads
+        if got != expect:
+            why = "ids" if [g[0] for g in got] != [e[0] for e in expect] else \
+                "length" if [g[1] for g in got] != [e[1] for e in expect] else "positions"
+            rep.add([O.V("model" if what == "read" else "history", f"CmapReader.{api} ({what}, chunks {profile}, filter {filt}) "
+                                  f"returned {[(g[0], g[1], len(g[2])) for g in got][:4]} expected "
+                                  f"{[(e[0], e[1], len(e[2])) for e in expect][:4]} ({why} differ)", f"{what}|{why}")], vi)
+        return got
+
+    for vi, v in enumerate(case["variants"]):
+        text = fmt.write_cmap(case["maps"], v["layout"])
+        got = read(CmapReader(), v["api"], text, "in.cmap", v["profile"], v["seed"], v["seekable"], case["filter"], vi, "read")
+        if got is None:
+            continue
+        results.append(got)
+        for mid, length, pos in got:       # the trimming sentence, asserted on every map read
+            t = OpticalMap(mid, length, pos).trim()
+            rep.clauses["trim"] += 1
+            ok = (t.positions[0] == 0 and len(t.positions) == len(pos)
+                  and all(abs((b - a) - (d - c)) < 1e-6 for a, b, c, d in zip(pos, pos[1:], t.positions, t.positions[1:]))
+                  and abs(t.length - (pos[-1] - pos[0] + 1)) < 1e-6 and t.trim().positions == t.positions
+                  and t.trim().length == t.length and t.moleculeId == mid)
+            if not ok:
+                rep.add([O.V("trim", f"trim of molecule {mid} (first label {pos[0]}, {len(pos)} labels, length {length}) gives "
+                                     f"first {t.positions[0]}, {len(t.positions)} labels, length {t.length}; expected length "
+                                     f"{pos[-1] - pos[0] + 1}", "trim")], vi)
+        if got:
+            rep.nontrivial.append(world_digest([case["maps"], v["layout"], v["profile"], case["filter"]]))
+    if len(results) == len(case["variants"]) and any(r != results[0] for r in results[1:]):
+        rep.add([O.V("stream-independent", "the same molecule set read through different layouts / chunkings "
+                                           "gives different results", "stream-independent")], 0)
+    # history: ONE reader object, several reads (same stream name, different filters / different content)
+    reader = CmapReader()
+    for hi, h in enumerate(case.get("history", [])):
+        text = fmt.write_cmap(case["maps"] if h["maps"] == "A" else case["maps_b"], h["layout"])
+        read(reader, h["api"], text, h["name"], h["profile"], h["seed"], h["seekable"], h["filter"], 100 + hi, "history")
+    out = rep.as_dict()
+    out["stats"] = stats
+    return out
+
+
+def world_digest(obj):
+    from . import world
+    return world.digest(obj)
+
+
 class C17(Base):
     id = "C17"
     klass = "A"
-    quick_worlds = 6000
-    thorough_worlds = 400000
+    quick_worlds = 3000
+    thorough_worlds = 300000
     in_process = True
 
     def gen(self, rng, tier):
         n = rng.randint(1, 8)
         ids = rng.sample(range(1, 100000), n) if rng.random() < 0.5 else W.distinct_ids(rng, n, 1, 60)
-        maps = []
-        for mid in ids:
-            nl = rng.choice([0, 0, 1, 2, 3, rng.randint(4, 60)])
-            p = rng.uniform(0, 5000)
-            pos = []
-            for _ in range(nl):
-                pos.append(W.r1(p))
-                p += rng.choice([0.0, 0.1, rng.uniform(0.1, 30000)])
-            length = W.r1((pos[-1] if pos else 0) + rng.uniform(0, 10000))
-            maps.append({"id": mid, "length": length, "pos": pos})
-        lay = W.layout(rng, n)
-        lay["int_coords"] = False
+        maps = _c17_molecules(rng, ids)
         present = [m["id"] for m in maps]
-        filt = rng.choice([None, None, "present", "absent", "mixed"])
-        if filt == "present":
-            f = rng.sample(present, rng.randint(1, len(present)))
-        elif filt == "absent":
-            f = [max(present) + 1 + i for i in range(rng.randint(1, 3))]
-        elif filt == "mixed":
-            f = rng.sample(present, rng.randint(1, len(present))) + [max(present) + 7]
-        else:
-            f = None
         variants = []
         for _ in range(3):
-            variants.append({"layout": W.layout(rng, n), "profile": rng.choice(streams.CHUNK_PROFILES),
+            lay = W.layout(rng, n)
+            variants.append({"layout": lay, "profile": rng.choice(streams.CHUNK_PROFILES),
                              "seed": rng.randrange(1 << 20), "seekable": rng.random() < 0.5,
                              "api": rng.choice(["readQueries", "readReferences"])})
-        variants[0]["layout"] = lay
-        return {"maps": maps, "filter": f, "variants": variants}
+        # second molecule set re-using some ids with other coordinates, for the one-reader history
+        ids_b = sorted(set(rng.sample(present, rng.randint(1, len(present))) + [max(present) + rng.randint(1, 9)]))
+        maps_b = _c17_molecules(rng, ids_b)
+        history = []
+        for _ in range(rng.randint(2, 4)):
+            which = rng.choice(["A", "A", "B"])
+            pres = present if which == "A" else ids_b
+            history.append({"maps": which, "layout": W.layout(rng, len(pres)), "name": rng.choice(["in.cmap", "in.cmap", "other.cmap"]),
+                            "filter": _c17_filter(rng, pres), "api": rng.choice(["readQueries", "readReferences"]),
+                            "profile": rng.choice(streams.CHUNK_PROFILES), "seed": rng.randrange(1 << 20),
+                            "seekable": rng.random() < 0.5})
+        return {"maps": maps, "maps_b": maps_b, "filter": _c17_filter(rng, present), "variants": variants, "history": history}
 
     def run(self, case, ctx):
-        from src.parsers.cmap_reader import CmapReader
+        from . import world
+        res = world.isolated(c17_body, case)
         rep = Report()
-        results = []
-        for vi, v in enumerate(case["variants"]):
-            text = fmt.write_cmap(case["maps"], v["layout"])
-            model = fmt.parse_cmap(text)
-            expect = []
-            for mid in sorted(model):
-                m = model[mid]
-                if not m["pos"]:
-                    continue
-                if case["filter"] and mid not in case["filter"]:
-                    continue
-                expect.append((mid, int(m["length"]), m["pos"]))
-            stream = streams.SimTextReader(text, "in.cmap", v["profile"], v["seed"], v["seekable"])
-            rep.clauses["read"] += 1
-            ctx.count_stream(v["profile"])
-            try:
-                got = getattr(CmapReader(), v["api"])(stream, case["filter"])
-                got = [(int(m.moleculeId), m.length, [float(p) for p in m.positions]) for m in got]
-            except BaseException as e:  # noqa: BLE001
-                allempty = not expect
-                rep.add([O.V("reader-raises", f"CmapReader.{v['api']} raised {type(e).__name__}: {str(e)[:120]} "
-                                              f"(profile {v['profile']}, seekable {v['seekable']}, "
-                                              f"{len(expect)} molecules expected)",
-                             f"raises|{type(e).__name__}|{'empty' if allempty else 'nonempty'}")], vi)
-                continue
-            ctx.short_reads += stream.short_reads
-            if got != expect:
-                why = "ids" if [g[0] for g in got] != [e[0] for e in expect] else \
-                    "length" if [g[1] for g in got] != [e[1] for e in expect] else "positions"
-                rep.add([O.V("model", f"CmapReader.{v['api']} (chunks {v['profile']}, filter {case['filter']}) returned "
-                                      f"{[(g[0], g[1], len(g[2])) for g in got][:4]} expected "
-                                      f"{[(e[0], e[1], len(e[2])) for e in expect][:4]} ({why} differ)", f"model|{why}")], vi)
-            results.append(got)
-            # trimming sentence, asserted on every map read
-            from src.correlation.optical_map import OpticalMap
-            for mid, length, pos in got:
-                om = OpticalMap(mid, length, pos)
-                t = om.trim()
-                rep.clauses["trim"] += 1
-                ok = (t.positions[0] == 0 and len(t.positions) == len(pos)
-                      and all(abs((b - a) - (d - c)) < 1e-6 for a, b, c, d in zip(pos, pos[1:], t.positions, t.positions[1:]))
-                      and abs(t.length - (pos[-1] - pos[0] + 1)) < 1e-6 and t.trim().positions == t.positions
-                      and t.trim().length == t.length)
-                if not ok:
-                    rep.add([O.V("trim", f"trim of molecule {mid} breaks geometry", "trim")], vi)
-            if got:
-                rep.nontrivial.append(ctx.digest([case["maps"], v["layout"], v["profile"], case["filter"]]))
-        if len(results) == len(case["variants"]) and any(r != results[0] for r in results[1:]):
-            rep.add([O.V("stream-independent", "the same molecule set read through different layouts / chunkings "
-                                               "gives different results", "stream-independent")], 0)
+        rep.violations = res["violations"]
+        rep.probes.update(res["probes"])
+        rep.clauses.update(res["clauses"])
+        rep.nontrivial = res["nontrivial"]
+        st = res["stats"]
+        ctx.n_exec += st["reads"]
+        ctx.short_reads += st["short_reads"]
+        ctx.faults["short_reads"] = ctx.faults.get("short_reads", 0) + st["short_reads"]
+        for k, v in st["profiles"].items():
+            ctx.stream_profiles[k] = ctx.stream_profiles.get(k, 0) + v
+        rep.probes["history_reads"] += len(case.get("history", []))
         return rep
 
 
@@ -1262,6 +1336,23 @@ class C18(Base):
                 q["pos"] = [W.r1(p + off) for p in q["pos"]]
                 q["length"] = W.r1(q["length"] + off)
         case["executions"] = [gen_exec(rng, readback=True) for _ in range(2)]
+        if rng.random() < 0.5:
+            # 'alt': other maps under the *same* molecule ids; execution 0 runs on alt, its files become decoys that the
+            # reader of execution 1 (same process as that run's read-back) has to read first
+            base = case["filesets"]["base"]
+            rng2 = random.Random(rng.randrange(1 << 30))
+            alt_refs = W.make_refs(rng2, None, len(base["refs"]), ids=[r["id"] for r in base["refs"]])
+            for r in alt_refs:
+                if len(r["pos"]) > 100:
+                    r["pos"] = r["pos"][:100]
+                    r["length"] = W.r1(r["pos"][-1] + 500)
+            alt_q, _ = W.make_queries(rng2, alt_refs, len(base["queries"]), [("noisy", 3), ("chimeric", 3), ("planted", 1)],
+                                      ids=[q["id"] for q in base["queries"]])
+            case["filesets"]["alt"] = {"refs": [W.strip(r) for r in alt_refs], "queries": [W.strip(q) for q in alt_q],
+                                       "r_layout": W.layout(rng2, len(alt_refs)), "q_layout": W.layout(rng2, len(alt_q))}
+            case["executions"][0]["fileset"] = "alt"
+            case["executions"][0]["save_as_decoy"] = True
+            case["executions"][1]["readback"]["decoy"] = "alt"
         return case
 
     def run(self, case, ctx):
@@ -1274,6 +1365,19 @@ class C18(Base):
             maps = maps_for(case, ex, ctx)
             parsed = parse_outputs(out)
             probes_single(rep, out, parsed)
+            if ex.get("save_as_decoy"):
+                ctx.save_decoys(out)
+            if out.get("readback_decoy"):
+                dmaps = O.Maps(*ctx.texts[ex["readback"]["decoy"]])
+                for n, rb in sorted(out["readback_decoy"].items()):
+                    if n == "_error":
+                        rep.add([O.V("reader-raises", f"decoy setup failed: {rb}", "decoy")], k)
+                        continue
+                    dp = fmt.parse_xmap(rb.get("text", ""))
+                    if dp["records"]:
+                        rep.clauses["decoy-file"] += 1
+                        rep.add(O.c18_file(dp, rb, dmaps, n), k)
+                rep.probes["histories_with_decoy_reads"] += 1
             for n, p in parsed.items():
                 if not p["records"]:
                     rep.probes["zero_record_files_skipped"] += 1
